@@ -331,6 +331,7 @@ template <class K> struct unordered_set {
   vector<K> v_;
   typedef const K* iterator; typedef const K* const_iterator;
   unordered_set() {}
+  explicit unordered_set(size_t) {}
   template <class It> unordered_set(It b, It e) { for (; b != e; ++b) insert(*b); }
   size_t count(const K& k) const { for (size_t i = 0; i < v_.size(); ++i) if (v_[i] == k) return 1; return 0; }
   pair<const K*, bool> insert(const K& k) { for (size_t i = 0; i < v_.size(); ++i) if (v_[i] == k) return pair<const K*, bool>(&v_[i], false); v_.push_back(k); return pair<const K*, bool>(&v_.back(), true); }
@@ -348,6 +349,8 @@ template <class K, class V> struct unordered_map {
   typedef pair<K, V> value_type;
   vector<value_type> v_;
   typedef value_type* iterator; typedef const value_type* const_iterator;
+  unordered_map() {}
+  explicit unordered_map(size_t) {}
   V& operator[](const K& k) { for (size_t i = 0; i < v_.size(); ++i) if (v_[i].first == k) return v_[i].second; v_.push_back(value_type(k, V())); return v_.back().second; }
   V& at(const K& k) { for (size_t i = 0; i < v_.size(); ++i) if (v_[i].first == k) return v_[i].second; throw out_of_range("unordered_map::at"); }
   const V& at(const K& k) const { for (size_t i = 0; i < v_.size(); ++i) if (v_[i].first == k) return v_[i].second; throw out_of_range("unordered_map::at"); }
